@@ -78,13 +78,33 @@ def make_classes():
             return {"rows": control.num_rows + treatment.num_rows,
                     "sum": sum(float(sum(treatment[c].to_pylist())) for c in self.cols_)}
 
-    return Recorder, CustomAggr, CustomGran
+    from tea_tasting.metrics.base import MetricPowerResults, PowerBaseAggregated
+
+    class PowerOnly(MetricBase, PowerBaseAggregated):
+        """plain metric for analyze(); power analysis from the aggregates it declares (mean, var and cov of 2 columns)"""
+        def __init__(self, cols_):
+            self.cols_ = tuple(cols_)
+
+        @property
+        def aggr_cols(self):
+            a, b = self.cols_
+            return AggrCols(has_count=True, mean_cols=(a, b), var_cols=(b,), cov_cols=((a, b),))
+
+        def analyze(self, data, control, treatment, variant):
+            return {"plain": 1}
+
+        def solve_power_from_aggregates(self, data, parameter="rel_effect_size"):
+            a, b = self.cols_
+            return MetricPowerResults([{"n": data.count(), "m": data.mean(a) + data.mean(b), "v": data.var(b),
+                                        "c": data.cov(a, b)}])
+
+    return Recorder, CustomAggr, CustomGran, PowerOnly
 
 
 def pairs_correspondence(chk: Check, n):
     import pyarrow as pa
     import tea_tasting as tt
-    Recorder, _, _ = make_classes()
+    Recorder, _, _, _ = make_classes()
     rng = chk.rng
     jobs = []
     for i in range(n):
@@ -141,7 +161,7 @@ def standalone(chk: Check, n):
     import pyarrow as pa
     import tea_tasting as tt
     import tea_tasting.metrics as tm
-    _, CustomAggr, CustomGran = make_classes()
+    _, CustomAggr, CustomGran, PowerOnly = make_classes()
     rng = chk.rng
     nprng = np.random.default_rng(chk.seed + 12)
     colnames = ["a", "b", "c", "d", "e"]
@@ -248,8 +268,12 @@ def standalone(chk: Check, n):
                                      dict(input=inp, metric=name))
         # solve_power: experiment vs each metric alone
         pm = {k_: v for k_, v in metrics.items() if isinstance(v, tt.Mean | tt.RatioOfMeans)}
-        if pm:
+        if pm or i % 2:
             pm2 = {}
+            if i % 2:
+                # a user-defined metric whose POWER analysis works from aggregates although it is not an aggregated
+                # metric for analyze(): it must receive the statistics it declared, whatever else is in the experiment
+                pm2["zz_power_only"] = PowerOnly(rng.sample(colnames, 2))
             for k_, v in pm.items():
                 cls = type(v)
                 args = (v.value, v.covariate) if isinstance(v, tt.Mean) else (v.numer, v.denom, v.numer_covariate,
@@ -260,6 +284,11 @@ def standalone(chk: Check, n):
                 pr = pe.solve_power(data, "power")
                 for k_, v in pm2.items():
                     alone = v.solve_power(data, "power")
+                    if isinstance(v, PowerOnly):
+                        if not all(approx(x, y) for x, y in zip(pr[k_][0].values(), alone[0].values())):
+                            chk.fail("Experiment.solve_power entry of a user-defined power metric differs from its own "
+                                     "solve_power", dict(input=inp, metric=k_, alone=repr(alone), in_experiment=repr(pr[k_])))
+                        continue
                     for r1, r2 in zip(pr[k_], alone):
                         if any(not approx(x, y) for x, y in zip(r1, r2)):
                             chk.fail("Experiment.solve_power entry differs from the metric's own solve_power",
